@@ -581,9 +581,30 @@ def counter_validity_table():
     return rows
 
 
+def built_sources():
+    """the .cpp files that are compiled into clang_delta: the add_executable(clang_delta ...) list of CMakeLists.txt
+    (a registration in a file that is not linked does not exist in the tool)"""
+    p = os.path.join(CD, 'CMakeLists.txt')
+    txt = re.sub(r'#[^\n]*', '', open(p).read())
+    ms = re.findall(r'add_executable\s*\(\s*clang_delta\b([^)]*)\)', txt)
+    if len(ms) != 1:
+        raise TranslatorError(f'{p}: expected exactly one add_executable(clang_delta ...)')
+    body = ms[0]
+    if '$<' in body or re.search(r'\$\{(?!(CMAKE|PROJECT)_BINARY_DIR\})', body):
+        raise TranslatorError(f'{p}: add_executable(clang_delta ...) uses variables or generator expressions')
+    files = [w for w in body.split() if w.endswith('.cpp') and not w.startswith('$')]
+    for w in files:
+        if not os.path.exists(os.path.join(CD, w)):
+            raise TranslatorError(f'{p}: lists {w}, which does not exist')
+    return set(files)
+
+
 def registrations():
     regs = []
+    built = built_sources()
     for f in sorted(glob.glob(os.path.join(CD, '*.cpp'))):
+        if os.path.basename(f) not in built:
+            continue
         src = strip_comments_strings(open(f).read(), keep_strings=True)
         ms = re.findall(r'static\s+RegisterTransformation\s*<\s*(\w+)\s*(?:,\s*[\w:]+\s*)?>\s*(\w+)\s*\(\s*"([^"]+)"\s*,', src)
         if 'RegisterTransformation' in src and os.path.basename(f) not in ('TransformationManager.cpp',) and not ms:
